@@ -168,7 +168,7 @@ def utils_batch(case):
             problems.append(("map-endpoint", f"map(from_low) = {U.map(a, a, b, c, d)!r} != to_low {c!r}"))
     # sleep
     for _ in range(max(10, n // 10)):
-        ms = r.choice([0, 1, 250, 0.5, 1e-3, 1e6, 999.999, True, -1, -0.001, -1e9])
+        ms = r.choice([0, 1, 250, 0.5, 1e-3, 1e6, 999.999, True, -1, -0.001, -1e9, 0.0004, 1.2345678, 1e-7, -0.0004, -1e-9, 33.333333333])
         calls = []
         try:
             U.sleep(ms, sleep_func=lambda s: calls.append(s))
